@@ -81,8 +81,7 @@ SPEC = dict(
                "in the tree (7771c2d, 7a677f2, e363fe9, 7c60ff5, a739aa9); their witnesses are replayed first. A white space keep-alive used to end the connection "
                "even inside an established session (C10:whitespace-keepalive-ends-connection, fixed by 8d68c05; theorem "
                "whitespace_keepalive_is_ignored, witness replayed). Where the next attempt goes: "
-               "next_attempt_after_stream_end_targets_configured_host, connect_target_spec. OPEN finding: the resume location is never cleared "
-               "(C10:next-attempt-targets-stale-resume-location, C10_defect_stale_resume_location, fixes/C10-stale-resume-location.diff).",
+               "next_attempt_after_stream_end_targets_configured_host, connect_target_spec. The resume location used to outlive its stream (C10:next-attempt-targets-stale-resume-location, fixed by dcf656f; theorem resume_location_belongs_to_the_enabled_stream, witness replayed).",
     design_ref="5.10",
     technique="Lean 4 proofs over all event histories + model/implementation correspondence against a scripted, cut-at-every-point server",
 )
